@@ -3,6 +3,7 @@ CONSTANTS
   Edits1 = @EDITS1@
   Edits2 = @EDITS2@
   Headers = @HEADERS@
+  Headers2 = @HEADERS2@
 INIT Init
 NEXT Next
 CONSTRAINT Emit
